@@ -56,6 +56,8 @@ class Opts:
         self.lead_op = False  # first file entry is a host operator on its own thread at a drawn (possibly late) time
         self.ensure_kernel = False  # every rank has at least one linked kernel launch
         self.kdurs = [1, 2, 3, 4, 7, 12]
+        self.backward_ann = False  # main thread carries '## backward ##' annotations (not nested in each other)
+        self.force_second_thread = False
         self.annotations = True
         self.template = False
         self.min_kernels = 0
@@ -140,15 +142,25 @@ def body(draw, o: Opts, streams: List[int], depth: int) -> List[Dict[str, Any]]:
 @st.composite
 def thread_program(draw, o: Opts, streams: List[int], with_steps: bool, nsteps: int, first_step: int) -> List[Dict[str, Any]]:
     """Top-level item list of one host thread."""
+    def with_backward(kids: List[Dict[str, Any]]) -> List[Dict[str, Any]]:
+        if not o.backward_ann or not pick(draw, [True, True, False]):
+            return kids
+        o_in = Opts(**{**o.__dict__, "backward_ann": False})
+        ann = {"t": "op", "name": "## backward ##", "cat": "user_annotation", "pre": pick(draw, SMALL), "post": pick(draw, SMALL),
+               "min": pick(draw, [25, 10, 4, 1]), "kids": draw(body(o_in, streams, 1))}
+        pos = pick(draw, list(range(len(kids) + 1)))
+        return kids[:pos] + [ann] + kids[pos:]
+
     if not with_steps or nsteps == 0:
-        return draw(body(o, streams, 0))
+        return with_backward(draw(body(o, streams, 0)))
     items: List[Dict[str, Any]] = []
     if pick(draw, [True, False]):
         items += draw(body(o, streams, 0))  # work before the first step
     for k in range(nsteps):
-        kids = draw(body(o, streams, 0))
+        kids = with_backward(draw(body(o, streams, 0)))
         items.append({"t": "op", "name": vocab.profiler_step(first_step + k), "cat": "user_annotation",
-                      "pre": pick(draw, [0, 0, 1, 3]), "post": pick(draw, SMALL), "min": 1, "kids": kids})
+                      "pre": pick(draw, [0, 0, 1, 3]), "post": pick(draw, SMALL),
+                      "min": pick(draw, [30, 10, 1, 1]) if o.autograd else 1, "kids": kids})
     if pick(draw, [True, False]):
         items += draw(body(o, streams, 0))  # work after the last step
     return items
@@ -170,13 +182,17 @@ def rank_program(draw, o: Opts, rank: int, nsteps: int, first_step: int) -> Dict
     if o.lead_op and pick(draw, [True, True, False]):
         prog["lead"] = {"ts": pick(draw, [40, 25, 12, 0, 70]), "dur": pick(draw, [1, 3, 0])}
     prog["threads"].append({"tid_off": 0, "start": 0, "items": main})
-    if o.second_thread and pick(draw, [False, False, True]):
+    if o.second_thread and (o.force_second_thread or pick(draw, [False, False, True])):
         o2 = Opts(**{**o.__dict__, "w_sync": 0, "device_sync": False, "w_launch": o.w_launch if not o.device_sync else 0})
         streams2 = STREAMS[ns:ns + 1] or [STREAMS[-1] + 4]
         names = vocab.AUTOGRAD_OPS if o.autograd else None
         items2 = draw(body(o2, streams2, 0)) if names is None else [draw(op_node(o2, streams2, 0, names)) for _ in
                                                                     range(pick(draw, [1, 2, 3]))]
-        prog["threads"].append({"tid_off": 1, "start": pick(draw, [0, 1, 5, 9]), "items": items2})
+        th2 = {"tid_off": 1, "start": pick(draw, [0, 1, 5, 9] + ([3, 15, 25] if o.autograd else [])), "items": items2}
+        if o.autograd:
+            # start relative to the first backward annotation / profiler step of the main thread (None = absolute start)
+            th2["align"] = pick(draw, [0, 1, None, 3, -2, 0])
+        prog["threads"].append(th2)
     return prog
 
 
@@ -278,6 +294,11 @@ def simulate_rank(prog: Dict[str, Any], epoch: int) -> Sim:
     for th in prog["threads"]:
         tid = sim.hpid + th["tid_off"]
         clock = prog["start"] + th["start"]
+        if th.get("align") is not None:
+            main = [e for evs in sim.host.values() for e in evs if e is not None]
+            anchors = [e for e in main if e["name"].startswith("## backward ##")] or [e for e in main if e["name"].startswith("ProfilerStep#")]
+            if anchors:
+                clock = max(0, anchors[0]["ts"] - epoch + th["align"])
         for item in th["items"]:
             clock = sim.run(tid, item, clock)
     return sim
